@@ -239,18 +239,21 @@ nni_listener_init(nni_listener *l, nni_sock *s, nni_sp_tran *tran)
 
 	rv = l->l_ops.l_init(lp, &l->l_url, l);
 
-	if (rv == 0) {
-		rv = nni_sock_add_listener(s, l);
-	}
-
+	// Get the id before the socket can see us: a socket that is being
+	// closed closes everything on its list at once, and that has to
+	// take the id out of the table again.
 	if (rv == 0) {
 		nni_mtx_lock(&listeners_lk);
 		rv = nni_id_alloc32(&listeners, &l->l_id, l);
 		nni_mtx_unlock(&listeners_lk);
-		if (rv != 0) {
-			// Our caller is going to free us; do not stay on
-			// the socket's list.
-			nni_sock_remove_listener(l);
+	}
+
+	if (rv == 0) {
+		if ((rv = nni_sock_add_listener(s, l)) != 0) {
+			// Our caller is going to free us.
+			nni_mtx_lock(&listeners_lk);
+			nni_id_remove(&listeners, l->l_id);
+			nni_mtx_unlock(&listeners_lk);
 		}
 	}
 
